@@ -6,6 +6,7 @@
   status Committed) is in the log. Ids must be fresh: that was violated before the fix of D-TXID.
 -/
 import Nuts.Model.Tx
+import NutsProofs.Facts
 namespace NutsProofs.C10
 open Nuts Nuts.Model Nuts.Model.DB
 
@@ -96,5 +97,13 @@ theorem C10_witness_shared_id :
     let residue : LogRec := ({ (mkRec [97] [108] [2] flagSet dsKV) with txid := 7, status := 0 }, 0, 46)
     residue ∈ visible [committed, residue] (committedIds [committed, residue]) := by
   decide
+
+/-- the two structural facts of `Tx.Commit` (regenerated from the source on every run) that make the
+record-level argument apply to the code: the commit marker is set on the last record only, before
+it is written; the id enters `committedTxIds` only after that write. -/
+theorem C10_commit_marker_facts :
+    Facts.items "status" = [("status", "i == lastIndex", "entry.Meta.status = Committed")] ∧
+    (NutsGen.F.commitLoop.findIdx? (·.1 == "write")).getD 99 < (NutsGen.F.commitLoop.findIdx? (·.1 == "committedIds")).getD 0 :=
+  ⟨Facts.commit_marker_last_only.1, Facts.commit_ids_after_last_write.2⟩
 
 end NutsProofs.C10
